@@ -620,6 +620,7 @@ pub mod std {
             pub fn checked_sub(&self, d: Duration) -> (r: Option<SystemTime>)
                 ensures
                     r.is_some() ==> r.unwrap().ns() == self.ns() - d.ns(),
+                    r.is_none() ==> self.ns() < d.ns(),   // None only when the difference is not representable, which is far below the epoch
             {
                 unimplemented!()
             }
@@ -940,11 +941,12 @@ pub mod std {
                 unimplemented!()
             }
 
-            /// st_mtime as a SystemTime (may fail on platforms without it: a hard fault nobody counts).
+            /// st_mtime as a SystemTime.  ASSUMPTION: on the Unix targets the crate supports this call cannot fail.
             #[verifier::external_body]
             pub fn modified(&self) -> (r: std::io::Result<std::time::SystemTime>)
                 ensures
-                    r.is_ok() ==> r.unwrap().ns() == self.view().mtime,
+                    r.is_ok(),
+                    r.unwrap().ns() == self.view().mtime,
             {
                 unimplemented!()
             }
@@ -1451,6 +1453,23 @@ pub mod std {
             x: u8,
         }
 
+        /// `flatten()` skips `k` unreadable items (each a hard fault) and then yields the next readable one, or ends.
+        pub open spec fn flat_step(l0: Seq<Option<Seq<u8>>>, k: int, name: Option<Seq<u8>>, l1: Seq<Option<Seq<u8>>>) -> bool {
+            &&& 0 <= k <= l0.len()
+            &&& forall|i: int| 0 <= i < k ==> (#[trigger] l0[i]).is_none()
+            &&& match name {
+                Some(n) => k < l0.len() && l0[k] == Some(n) && l1 == l0.skip(k + 1),
+                None => k == l0.len() && l1.len() == 0,
+            }
+        }
+
+        pub open spec fn opt_entry_name(r: Option<DirEntry>) -> Option<Seq<u8>> {
+            match r {
+                Some(e) => Some(e.name()),
+                None => None,
+            }
+        }
+
         impl FlatReadDir {
             pub uninterp spec fn rem(&self) -> Seq<Option<Seq<u8>>>;
 
@@ -1480,6 +1499,7 @@ pub mod std {
                             &&& single_component(e.name())
                         },
                     },
+                    exists|k: int| #[trigger] flat_step(old(self).rem(), k, opt_entry_name(r), final(self).rem()) && final(w).hard_faults == old(w).hard_faults + k,
             {
                 unimplemented!()
             }
